@@ -82,7 +82,7 @@ def run(ck):
         ck.sample({"spec": rp["spec"], "violations": len(ck.violations)})
         return ck.finish()
     quick = ck.tier == "quick"
-    consts = {"MaxDefs": 3, "PoolSize": 32} if quick else {"MaxDefs": 4, "PoolSize": 32}
+    consts = {"MaxDefs": 3, "PoolSize": 35} if quick else {"MaxDefs": 4, "PoolSize": 35}
     g = ck.tlc("ScannerGen", constants=consts, workers=4, count=False, timeout=600)
     if "GENERATED" not in g.out:
         raise vp.Infra("ScannerGen produced nothing:\n" + g.out[-2000:])
